@@ -1,8 +1,8 @@
 (* C12 -- JSON Schema: the samples fence every supported constraint on both sides.
    Local fence lemmas for numeric bounds (a number without multipleOf): the sample emitted just outside a
    bound is rejected by the schema and accepted once that bound is deleted. *)
-From Fences Require Import JsonGen JsonLeaves JsonEnum.
-From Coq Require Import ZArith.
+From Fences Require Import Json Normalize JsonGen JsonLeaves JsonEnum JsonLinks JsonFence.
+From Coq Require Import ZArith String.
 Local Open Scope Z_scope.
 
 Theorem C12_lower_bound_fenced : forall lo mx,
@@ -35,3 +35,38 @@ Proof.
   intros en He. split; [intros m Hm; exact (enum_members_covered en m He Hm)|exact (enum_nonmember_present [] en eq_refl He)].
 Qed.
 Print Assumptions C12_enum_fenced.
+
+Local Close Scope Z_scope.
+Local Open Scope bool_scope.
+Local Open Scope list_scope.
+Local Open Scope string_scope.
+
+(* type: the last stage of parse_any_of_entry hangs, for every JSON type the alternative does not allow, each default
+   sample of that type (42, "string", null, ...) as a leaf marked invalid directly below the alternative's decision, and
+   keeps every leaf that was already there; parse_any_of_entry ends with exactly that stage, run on the set of its
+   "type" keyword (all six types when the keyword is absent, so that nothing is fenced).  Stated on builder states whose
+   payload list is as long as the node table (true of the empty state and kept by every builder operation). *)
+Theorem C12_type_fenced : forall root types st,
+  List.length (jb_pay st) = List.length (jb_graph st) -> root < List.length (jb_graph st) ->
+  forall ty samples s, In (ty, samples) default_samples -> pmem (JStr ty) types = false -> In s samples ->
+    exists l, In l (outs_of (jb_graph (type_fence root types st)) root) /\
+              kind_of (jb_graph (type_fence root types st)) l = KLeaf false /\
+              nth_error (jb_pay (type_fence root types st)) l = Some (JPSet s).
+Proof. exact type_fence_spec. Qed.
+Print Assumptions C12_type_fenced.
+
+Theorem C12_entry_ends_with_type_fence : forall f d p st st' n,
+  parse_entry (S f) (JObj d) p st = Ok (st', n) ->
+  dhas (kw "enum") d || dhas (kw "NOT_enum") d = false -> dhas (kw "$ref") d = false ->
+  exists types st1, st' = type_fence n types st1 /\
+    (match dget (kw "type") d with Some t => types = pset (to_list t) | None => types = map JStr handler_types end).
+Proof. exact parse_entry_ends_with_fence. Qed.
+Print Assumptions C12_entry_ends_with_type_fence.
+
+(* not vacuous: below an alternative of type string the default samples of the five other types hang as invalid leaves *)
+Example C12_type_fence_nonvacuous :
+  let st := fst (jnoop false None jbempty) in
+  List.length (jb_pay st) = List.length (jb_graph st) /\ 0 < List.length (jb_graph st) /\
+  pmem (JStr (kw "number")) [JStr (kw "string")] = false /\
+  exists samples, In (kw "number", samples) default_samples /\ samples <> [].
+Proof. vm_compute. repeat split; try (repeat constructor). eexists. split; [right; left; reflexivity|discriminate]. Qed.
